@@ -24,6 +24,34 @@ theorem sweep_inv {ms : List M} {k : Nat} (hk : 0 < k) (hs : ms.Pairwise lexLt) 
     Inv ms k (sortedEvents ms k) (sweep ms k) :=
   inv_fold hk hs _ [] _ rfl (inv_init ms k)
 
+/-- the invariant holds at every point of the sweep -/
+theorem sweep_inv_take {ms : List M} {k : Nat} (hk : 0 < k) (hs : ms.Pairwise lexLt) :
+    ∀ n, n ≤ (sortedEvents ms k).length →
+      Inv ms k ((sortedEvents ms k).take n) (((sortedEvents ms k).take n).foldl (stepEv ms k) (initSt ms k)) := by
+  intro n
+  induction n with
+  | zero => intro _; simpa using inv_init ms k
+  | succ n ih =>
+    intro hn
+    have hlt : n < (sortedEvents ms k).length := by omega
+    have hI := ih (by omega)
+    have hE : sortedEvents ms k = (sortedEvents ms k).take n ++ (sortedEvents ms k)[n] :: (sortedEvents ms k).drop (n + 1) := by
+      rw [← List.drop_eq_getElem_cons hlt, List.take_append_drop]
+    obtain ⟨hnot, hbefore, hcomplete⟩ := split_facts (sortedEvents_pairwise ms k) (sortedEvents_nodup ms k) hE
+    rw [List.take_succ_eq_append_getElem hlt, List.foldl_append]
+    simp only [List.foldl_cons, List.foldl_nil]
+    obtain ⟨p, hp, he | he⟩ := (mem_sortedEvents ms k _).mp (List.getElem_mem hlt)
+    · rw [he] at hnot hbefore hcomplete ⊢
+      exact inv_step_start hk hs hI hp hnot hbefore hcomplete
+    · rw [he] at hnot hcomplete ⊢
+      exact inv_step_end hk hs hI hp hnot hcomplete
+
+theorem sweep_inv_prefix {ms : List M} {k : Nat} (hk : 0 < k) (hs : ms.Pairwise lexLt) {done rest : List Ev}
+    (h : sortedEvents ms k = done ++ rest) : Inv ms k done (done.foldl (stepEv ms k) (initSt ms k)) := by
+  have := sweep_inv_take hk hs done.length (by rw [h]; simp)
+  rw [h, List.take_left' rfl] at this
+  exact this
+
 theorem final_cell {ms : List M} {k : Nat} (hk : 0 < k) (hs : ms.Pairwise lexLt) {q : Nat} (hq : q < ms.length) :
     (cellAt (sweep ms k) q).1 = F ms k q :=
   (sweep_inv hk hs).ended q hq ((mem_sortedEvents ms k _).mpr ⟨q, hq, Or.inr rfl⟩)
